@@ -6,6 +6,7 @@ the same handle) from a source that fails at a chosen position (never / header /
 and after every call looks at the table through a FRESH sqlite3 connection (committed state) and through the
 handle's own connection (pending state).  Oracle: mc/refs/c17ref.py.
 """
+import collections
 import itertools
 import logging
 import os
@@ -15,7 +16,6 @@ import petl as etl
 
 from .. import env
 from .. import spaces
-from ..sources import FailingTable
 from ..refs import c17ref as ref
 
 ID = 'C17'
@@ -25,7 +25,15 @@ RULE = ('every (prior table contents, source table, fault position in {none, hea
         'handle kind in {file name, connection, cursor, cursor factory}, connection flavour, commit flag, '
         'todb/appenddb, raw failing source or failing source behind a petl view) is executed on a fresh sqlite3 '
         'file; 1, 2 and (thorough) 3 consecutive loads through one handle with a fault position chosen '
-        'independently per load, with and without a caller rollback in between.  A case is non-trivial when '
+        'independently per load, with and without a caller rollback in between.  Exception-type space: every '
+        'fault position x the TYPE of the exception the source raises (custom class, TypeError, ValueError, '
+        'KeyError, IndexError/LookupError, RuntimeError, StopIteration inside a generator (-> RuntimeError), '
+        'AttributeError, AssertionError, OSError, UnicodeDecodeError, ZeroDivisionError, sqlite3.Warning/Error/'
+        'DatabaseError/OperationalError/IntegrityError/ProgrammingError/InterfaceError raised BY THE SOURCE) x '
+        'source style (restartable table, one-shot generator that is finished after raising, class-based '
+        'iterator that would go on delivering the remaining rows after raising, failing table behind a petl '
+        'view).  After a source failure the call must also not return normally with a changed table pending on '
+        'the caller\'s connection (a swallowed failure presented as a completed load).  A case is non-trivial when '
         'committing at the wrong moment would be visible: the source fails after the load has already changed '
         'the pending table (rows deleted by todb or >=1 row inserted), or commit=False with a changed pending '
         'table, or a completed committed load whose result differs from the prior contents.  '
@@ -36,7 +44,8 @@ RULE = ('every (prior table contents, source table, fault position in {none, hea
         'ORDER BY (tables compared as multisets); the state of the caller\'s own connection after a failed '
         'load (pending partial work and rolled back are both accepted; every call is judged against what its '
         'own connection saw before the call, so a later committed load that also makes such pending rows durable '
-        'is counted under info:... but not reported).')
+        'is counted under info:... but not reported); BaseException-only failures (KeyboardInterrupt, '
+        'GeneratorExit); StopIteration from a class-based iterator (that IS exhaustion, not a failure).')
 ASSUMPTIONS = ['sqlite3 is the only engine available; other DB-API drivers / SQLAlchemy handles are not explored',
                'tables have <= 4 rows and 2 columns; prior contents are empty or 2 rows',
                'fresh-connection reads happen while the caller\'s connection may still hold an open transaction '
@@ -82,6 +91,8 @@ def setup(tier, seed):
 
 def bounds(tier, seed):
     return {'fault_space_max_rows': 4 if tier == 'thorough' else 3, 'fault_row_alphabet': len(_R3),
+            'exception_kinds': list(EXC_KINDS), 'source_styles': list(SRC_STYLES),
+            'exception_space_max_rows': 3 if tier == 'thorough' else 2,
             'roundtrip_cells': len(_CELLS), 'roundtrip_max_rows': 2,
             'consecutive_loads': 3 if tier == 'thorough' else 2,
             'two_load_max_rows': 2 if tier == 'thorough' else 1, 'three_load_max_rows': 1,
@@ -102,6 +113,10 @@ def items(tier, seed):
             for commit in (True, False):
                 for src in ('raw', 'view'):
                     out.append(('fault', h, op, commit, src))
+    for h in hs:
+        for op in OPS:
+            for commit in (True, False):
+                out.append(('exc', h, op, commit))
     for h in hs:
         for op in OPS:
             for commit in (True, False):
@@ -154,6 +169,23 @@ def cases_of(item, tier):
                         c['steps'] = [{'op': op, 'commit': commit, 'header': ('a', 'b'), 'rows': list(tbl),
                                        'fault': fault, 'src': src}]
                         yield c
+    elif kind == 'exc':
+        _, _, op, commit = item
+        nmax = 3 if tier == 'thorough' else 2
+        priors = _PRIORS[::-1] if tier == 'thorough' else _PRIORS[1:]
+        for n in range(0, nmax + 1):
+            rows = (_SEQROWS[0] + _SEQROWS[1])[:n]
+            for fault in _fault_positions(n, False):
+                for exc in EXC_KINDS:
+                    for src in SRC_STYLES:
+                        if src == 'iterator' and exc == 'StopIteration in generator':
+                            continue        # StopIteration from __next__ is exhaustion, not a failure
+                        for prior in priors:
+                            c = dict(base)
+                            c['prior'] = prior
+                            c['steps'] = [{'op': op, 'commit': commit, 'header': ('a', 'b'), 'rows': rows,
+                                           'fault': fault, 'src': src, 'exc': exc}]
+                            yield c
     elif kind == 'hostile':
         _, _, op = item
         for n in range(0, 3 if tier == 'thorough' else 2):
@@ -233,11 +265,92 @@ def _connect(path, flavor):
     return sqlite3.connect(path)
 
 
+class Boom(Exception):
+    """The custom exception class of the failing source."""
+
+
+# exception the SOURCE raises: name -> factory(message)
+EXC_KINDS = collections.OrderedDict([
+    ('Boom', lambda m: Boom(m)),
+    ('TypeError', lambda m: TypeError(m)),
+    ('ValueError', lambda m: ValueError(m)),
+    ('KeyError', lambda m: KeyError(m)),
+    ('IndexError', lambda m: IndexError(m)),
+    ('LookupError', lambda m: LookupError(m)),
+    ('RuntimeError', lambda m: RuntimeError(m)),
+    ('StopIteration in generator', lambda m: StopIteration(m)),     # PEP 479 turns it into RuntimeError
+    ('AttributeError', lambda m: AttributeError(m)),
+    ('AssertionError', lambda m: AssertionError(m)),
+    ('OSError', lambda m: OSError(5, m)),
+    ('UnicodeDecodeError', lambda m: UnicodeDecodeError('utf-8', b'\xff', 0, 1, m)),
+    ('ZeroDivisionError', lambda m: ZeroDivisionError(m)),
+    ('sqlite3.Warning', lambda m: sqlite3.Warning(m)),
+    ('sqlite3.Error', lambda m: sqlite3.Error(m)),
+    ('sqlite3.DatabaseError', lambda m: sqlite3.DatabaseError(m)),
+    ('sqlite3.OperationalError', lambda m: sqlite3.OperationalError(m)),
+    ('sqlite3.IntegrityError', lambda m: sqlite3.IntegrityError(m)),
+    ('sqlite3.ProgrammingError', lambda m: sqlite3.ProgrammingError(m)),
+    ('sqlite3.InterfaceError', lambda m: sqlite3.InterfaceError(m)),
+])
+SRC_STYLES = ('raw', 'generator', 'iterator', 'view')
+
+
+def _failing_gen(header, rows, fault, exc):
+    """Generator: header and rows, raising instead of the item at position `fault` (0 = header, 1..n = data
+    row, n + 1 = instead of finishing).  Like every generator it is FINISHED after raising."""
+    items = [tuple(header)] + [tuple(r) for r in rows]
+    for pos, item in enumerate(items):
+        if fault == pos:
+            raise EXC_KINDS[exc]('injected failure at item %d' % pos)
+        yield item
+    if fault == len(items):
+        raise EXC_KINDS[exc]('injected failure at exhaustion')
+
+
+class FailingSource(object):
+    """Restartable table container; every iter() starts a new failing generator."""
+
+    def __init__(self, header, rows, fault, exc):
+        self.args = (header, rows, fault, exc)
+
+    def __iter__(self):
+        return _failing_gen(*self.args)
+
+
+class FailingIterator(object):
+    """Class-based one-shot iterator: raises once at the fault position and, if asked again, goes on with the
+    items after it (a consumer that swallows the failure and keeps pulling gets the remaining rows)."""
+
+    def __init__(self, header, rows, fault, exc):
+        self.items = [tuple(header)] + [tuple(r) for r in rows]
+        self.fault, self.exc, self.pos = fault, exc, 0
+
+    def __iter__(self):
+        return self
+
+    def __next__(self):
+        pos = self.pos
+        self.pos += 1
+        if pos == self.fault:
+            raise EXC_KINDS[self.exc]('injected failure at item %d' % pos)
+        if pos >= len(self.items):
+            raise StopIteration
+        return self.items[pos]
+
+
 def _source(step, cols):
     actual = tuple(cols[LOGICAL.index(h)] for h in step['header'])
-    src = FailingTable(actual, step['rows'], step['fault'])
-    if step['src'] == 'view':
+    exc = step.get('exc', 'Boom')
+    style = step['src']
+    if style == 'generator':
+        return _failing_gen(actual, step['rows'], step['fault'], exc)
+    if style == 'iterator':
+        return FailingIterator(actual, step['rows'], step['fault'], exc)
+    src = FailingSource(actual, step['rows'], step['fault'], exc)
+    if style == 'view':
         return etl.convert(src, actual[0], _ident)
+    if style != 'raw':
+        raise ValueError(style)
     return src
 
 
@@ -330,8 +443,25 @@ def run_case(case, counts=None):
                     sig = 'a fresh connection does not see the loaded table after a completed load'
                 problems.append((_sig_group(step, case, sig), si, ref.show(exp_committed),
                                  ref.show(committed_after),
-                                 'load %d: %s(commit=%s) fault position %r: committed table differs'
-                                 % (si + 1, step['op'], step['commit'], step['fault'])))
+                                 'load %d: %s(commit=%s) fault position %r%s: committed table differs%s'
+                                 % (si + 1, step['op'], step['commit'], step['fault'],
+                                    (' (source raises %s, style %s)' % (step.get('exc', 'Boom'), step['src']))
+                                    if step['fault'] is not None else '',
+                                    '' if raised is not None or step['fault'] is None
+                                    else '; the call returned normally')))
+            if step['fault'] is not None and raised is None and not owns:
+                # the failure was swallowed: the call claims success; the caller's connection must then not
+                # hold a (partially) loaded table that the caller would go on to commit
+                bump('evals')
+                view_after = conn.execute(_select(tname, cols)).fetchall()
+                if ref.bag(view_after) != ref.bag(view_before):
+                    problems.append((_sig_group(step, case, 'returned normally although the source failed, '
+                                                            'leaving a changed table on the caller\'s connection'),
+                                     si, {'raises': True, 'or table on the connection': ref.show(view_before)},
+                                     {'raises': False, 'table on the connection': ref.show(view_after)},
+                                     'load %d: %s(commit=%s) fault position %r (%s): failure swallowed'
+                                     % (si + 1, step['op'], step['commit'], step['fault'],
+                                        step.get('exc', 'Boom'))))
             if step['fault'] is None:
                 # round trip through the same handle
                 bump('evals')
@@ -390,6 +520,9 @@ def run_item(item, acc):
         for st in case['steps']:
             acc.counters['%s:%s:%s' % (st['op'], case['handle'],
                                         'fault' if st['fault'] is not None else 'complete')] += 1
+            if st['fault'] is not None:
+                acc.counters['source raises:%s' % st.get('exc', 'Boom')] += 1
+                acc.counters['source style:%s' % st['src']] += 1
         if first and counts.get('nontrivial_step'):
             acc.sample({'case': case, 'outcome': counts.get('last')}, 1)
             first = False
@@ -416,4 +549,10 @@ def vacuity(cov, tier):
             for k in ('fault', 'complete'):
                 if not c.get('%s:%s:%s' % (op, h, k)):
                     bad.append('no %s load via %s handle with outcome class %s' % (op, h, k))
+    for e in EXC_KINDS:
+        if not c.get('source raises:%s' % e):
+            bad.append('no failing load with a source raising %s' % e)
+    for st in SRC_STYLES:
+        if not c.get('source style:%s' % st):
+            bad.append('no failing load with source style %s' % st)
     return bad
